@@ -74,6 +74,8 @@ structure Pending where
   sends : List SResp
   recvs : List RResp
   hs : List HResp
+  /-- the peer reset the connection before it was accepted: `getpeername()` on the accepted socket raises -/
+  dead : Bool := false
 deriving Repr
 
 abbrev Table := List (Nat × Rem)
@@ -119,7 +121,11 @@ def acceptAll (s : Server) : List Pending → Server
   | [] => { s with pending := [] }
   | p :: ps =>
     let r := newRem s.tls s.nextSid p
-    if s.tls then
+    if p.dead then
+      -- `except OSError: cs.close(); continue`: no remoter is made, the socket is closed
+      acceptAll { s with nextSid := s.nextSid + 1,
+                         gone := { r with csOpen := false, c := { r.c with connected := false } } :: s.gone } ps
+    else if s.tls then
       acceptAll { s with nextSid := s.nextSid + 1, cxes := (dictSet s.cxes p.ca r).1,
                          gone := retire s.gone (dictSet s.cxes p.ca r).2 } ps
     else
